@@ -279,13 +279,16 @@ def specOpt (k : Kind) (v : Nat → Bool) : Option Node → SOutcome
   | some e => specEval k v e
 end
 
+/-- A scope name is acceptable for a node with capabilities `caps`. -/
+def tokOk (caps : Caps) : Tok → Bool
+  | .request => caps.req
+  | .response => caps.res
+  | .other => false
+
 /-- A scope is acceptable for a node with capabilities `caps`. -/
 def scopeOk (caps : Caps) : Scope → Bool
   | none => true
-  | some ts => ts.all fun t => match t with
-    | .request => caps.req
-    | .response => caps.res
-    | .other => false
+  | some ts => ts.all (tokOk caps)
 
 mutual
 /-- The tree names only registered modifiers, supported scopes, and is well-formed — everywhere. -/
